@@ -616,8 +616,14 @@ func c03Run(c *verifeng.Chooser, f *c03fix, env *verifhfs.Env, depth, npeers int
 	var recvTask *verifbubble.Task
 	stopRecv := make(chan struct{})
 	defer close(stopRecv)
+	// the order inside a burst as a further dimension (DESIGN 3.7)
+	var burst *verifbubble.Burst
+	if vfxInBurst {
+		burst = verifbubble.NewBurst(c)
+	}
 	for d := 0; d < depth && !c.Failed(); d++ {
 		verifbubble.Wait()
+		burst.End()
 		if sig, detail := verifbubble.LockOrder(); sig != "" {
 			c.Fail(oracle, "lock-order-inversion:"+sig, "%s", detail)
 			return
@@ -727,7 +733,7 @@ func c03Run(c *verifeng.Chooser, f *c03fix, env *verifhfs.Env, depth, npeers int
 		// the deferred drainUntilStopped judges whether it returns.
 		menu = append(menu, ev{"Stop", func() bool { return false }})
 		e := menu[c.ChooseFree(len(menu), lbl)]
-		c.Step("%s", e.name)
+		c.Step("%s%s", e.name, burst.Begin())
 		if !e.run() {
 			return
 		}
@@ -735,6 +741,9 @@ func c03Run(c *verifeng.Chooser, f *c03fix, env *verifhfs.Env, depth, npeers int
 	if c.Failed() {
 		return
 	}
+	verifbubble.Wait()
+	burst.End()
+	burst.Off()
 	// ---- convergence: with the honest peer answering everything the
 	// filter headers must catch up with the block headers.
 	for round := 0; round < 60; round++ {
@@ -866,6 +875,7 @@ func runC03(t *testing.T, harness, oracle string) {
 			t.Fatal(err)
 		}
 		fmt.Sscanf(v.Config, "depth=%d peers=%d", &depth, &npeers)
+		vfxInBurst = strings.Contains(v.Config, "in-burst")
 		e := verifeng.FromEnv(v.Harness, v.Config)
 		_, x, err := e.ReplayFile(rp, c03Body(t, depth, npeers, oracle))
 		if err != nil {
@@ -885,6 +895,18 @@ func runC03(t *testing.T, harness, oracle string) {
 		e.AuditEvery = 1
 	}
 	e.Run(c03Body(t, depth, npeers, oracle))
+	if err := verifeng.AppendResult(&e.Res); err != nil {
+		t.Fatal(err)
+	}
+	// second configuration: every history up to a smaller depth with at
+	// most one in-burst deviation (scheduler delay / slow goroutine / select)
+	vfxInBurst = true
+	e = verifeng.FromEnv(harness, fmt.Sprintf("depth=%d peers=%d trunk=%d in-burst deviations<=1", depth-2, npeers, c03TrunkLen))
+	e.ShardDepth = 3
+	e.MaxViol = 12
+	e.MaxDev = 1
+	e.Run(c03Body(t, depth-2, npeers, oracle))
+	vfxInBurst = false
 	if err := verifeng.AppendResult(&e.Res); err != nil {
 		t.Fatal(err)
 	}
